@@ -135,6 +135,23 @@ func VerifH_C30_certificateMsg() {
 	vr.Cover("done")
 }
 
+// certificateMsg with a long certificate: the certificate_list length runs over 250..262,
+// across the points where the list length, or the message length three above it, carries
+// into the next octet.
+// verif: covers=done
+func VerifH_C30_certificateMsg_long() {
+	first := append(vr.Bytes("head", 1), make([]byte, 243+vr.Pick(vr.Int("fill", 0, 12)))...)
+	m := &certificateMsg{certificates: [][]byte{first}}
+	if vr.Bool("second") {
+		m.certificates = append(m.certificates, vr.Bytes("cert2", 1))
+	}
+	raw := m.marshal()
+	var g certificateMsg
+	vr.Assert(g.unmarshal(raw) && c30eqBss(g.certificates, m.certificates), "certificate round-trips")
+	vr.Assert(int(raw[1])<<16|int(raw[2])<<8|int(raw[3]) == len(raw)-4, "the message length field is the body length")
+	vr.Cover("done")
+}
+
 // certificateRequestMsg (TLS <= 1.2)
 // verif: covers=done
 func VerifH_C30_certificateRequestMsg() {
